@@ -18,6 +18,7 @@ import (
 	sdkvesting "github.com/cosmos/cosmos-sdk/x/auth/vesting/types"
 	ibcante "github.com/cosmos/ibc-go/v7/modules/core/ante"
 	ibckeeper "github.com/cosmos/ibc-go/v7/modules/core/keeper"
+	oracletypes "github.com/settlus/chain/x/oracle/types"
 )
 
 // HandlerOptions defines the list of module keepers required to run the Settlus
@@ -96,6 +97,10 @@ func newCosmosAnteHandler(options HandlerOptions) sdk.AnteHandler {
 		cosmosante.NewAuthzLimiterDecorator( // disable the Msg types that cannot be included on an authz.MsgExec msgs field
 			sdk.MsgTypeURL(&evmtypes.MsgEthereumTx{}),
 			sdk.MsgTypeURL(&sdkvesting.MsgCreateVestingAccount{}), // Settlus do not support vesting accounts
+			// oracle msgs are authorized by the oracle ante handler only, so they cannot be granted or wrapped
+			sdk.MsgTypeURL(&oracletypes.MsgPrevote{}),
+			sdk.MsgTypeURL(&oracletypes.MsgVote{}),
+			sdk.MsgTypeURL(&oracletypes.MsgFeederDelegationConsent{}),
 		),
 		ante.NewSetUpContextDecorator(),
 		ante.NewExtensionOptionsDecorator(options.ExtensionOptionChecker),
